@@ -672,6 +672,7 @@ theorem step_all (hs : SlashCodeOk) (hg : GuardCodeOk) (s : State) (op : Op) (ht
   | withdraw o => exact withdraw_stake s o hi.stake
   | fund o amt => exact stake_same s _ hi.stake rfl rfl rfl rfl
   | mint o amt => exact stake_same s _ hi.stake rfl rfl rfl rfl
+  | tick dt => exact stake_same s _ hi.stake rfl rfl rfl rfl
   | unbond o => exact unbond_stake s o hi.stake
   | mkbatch => simp only [step, mkBatch]; split <;> first | exact hi.stake | exact stake_same s _ hi.stake rfl rfl rfl rfl
   | mkcall => exact stake_same s _ hi.stake rfl rfl rfl rfl
